@@ -787,6 +787,13 @@ class Interp:
 
     def ex_IfExp(self, e, fr):
         c = self.eval(e.test, fr)
+        if self.cx.generic and isinstance(c, SV) and c.kind == "bool":
+            from .core import mentions
+            if mentions(c.e, self.cx.generic[-1].names):
+                # element-dependent choice inside a generalised comprehension: merge the two values
+                a = self.eval(e.body, fr)
+                b = self.eval(e.orelse, fr)
+                return ops.ite_merge(self, c.e, a, b, e)
         if ops.truth(self, c, e.test):
             return self.eval(e.body, fr)
         return self.eval(e.orelse, fr)
